@@ -2,6 +2,7 @@
 from ..core import Rule
 from ..prog import *
 from ..facts import AnalysisBroken
+from ..interp import normx, nkey, run_all
 
 UNITS = ["evutil"]
 LEVEL = "other"
@@ -95,4 +96,80 @@ def run(ctx, config):
             if not vs <= checked:
                 r2.bad("K4:evutil_inet_pton:byte-not-range-checked", el.where(), g.name, "%s packed without a dominating > 255 rejection" % sorted(vs - checked))
     rules.append(r2)
+    rules.append(rule_v4form(P))
     return rules
+
+
+def rule_v4form(P):
+    """the dotted-quad forms of evutil_inet_ntop(AF_INET6) print only words[5] and the last four bytes: they may be chosen only for addresses whose other words are zero"""
+    r = Rule("C40-v4form", "K6", "IPv6 addresses are printed in an embedded-IPv4 form only when that form keeps every non-zero word (384 word patterns)", floor=300)
+    f = P.fn("evutil_inet_ntop")
+    af, src = f.params[0][0], f.params[1][0]
+    fmts = [el for el in f.calls("evutil_snprintf") if len(el.e[2]) > 2 and is_e(strip(el.e[2][2]), "str") and "%d.%d.%d.%d" in strip(el.e[2][2])[1] and ":" in strip(el.e[2][2])[1]]
+    if not fmts:
+        r.brk("evutil_inet_ntop: no embedded-IPv4 format found")
+        return r
+    cpinit = [el for el in f.elems() if el.e[0] == "asg" and is_e(strip(el.e[2]), "var") and strip(el.e[2])[1] == "cp" and is_e(strip(el.e[3]), "var") and strip(el.e[3])[1] == "buf"]
+    enumv = {"AF_INET6": 10}
+    nb = 0
+    import itertools
+    for ws in itertools.product(*([(0, 1)] * 5 + [(0, 1, 0xffff)] + [(0, 1)] * 2)):
+        env = {"#typed": 1, af: 10, src: 1, "addr": 1, f.params[2][0]: 2, f.params[3][0]: 64}
+        base = ["var", "addr", "local"]
+        for i, w in enumerate(ws):
+            for j, bv in ((2 * i, w >> 8), (2 * i + 1, w & 0xff)):
+                env[("s6", j)] = bv
+        def hook(el, e_):
+            n = callee_name(el.e)
+            if n in ("memcpy", "__builtin_memcpy", "__builtin___memcpy_chk"):
+                d = strip(el.e[2][0])
+                try:
+                    cnt = evalx(normx(el.e[2][2]), e_, P)
+                except EvalError:
+                    return "impure"
+                if is_e(d, "var"):
+                    # little-endian host: element k of a uint32 array gets bytes 4k..4k+3
+                    for k in range(cnt // 4):
+                        e_[nkey(["idx", d, ["int", k]])] = sum(e_[("s6", 4 * k + t)] << (8 * t) for t in range(4))
+                    return 0
+                return "impure"
+            if n == "evutil_snprintf":
+                e_["#fmt"] = strip(el.e[2][2])[1] if is_e(strip(el.e[2][2]), "str") else "?"
+                return 5
+            return None
+        env2 = dict(env)
+        def stop(el):
+            return (el in cpinit) or (el.e[0] == "call" and callee_name(el.e) == "strlen")
+        # concrete keys for addr->s6_addr[k] (s6_addr is a macro: take the spelling lvx extracted)
+        sample = None
+        for el in f.elems():
+            for q in walk(el.e):
+                if is_e(q, "idx") and any(is_e(z, "fld") and "in6" in z[2] for z in walk(q[1])) and root_var(q) is not None and root_var(q)[1] == "addr":
+                    sample = q
+                    break
+            if sample:
+                break
+        if sample is None:
+            r.brk("evutil_inet_ntop: addr->s6_addr[] reads not found")
+            return r
+        for j in range(16):
+            env2[nkey(["idx", sample[1], ["int", j]])] = env[("s6", j)]
+        outs = run_all(f, (f.entry, 0), env2, stop, P, hook, max_steps=600)
+        for o in outs:
+            if o.kind == "exit" and o.why == "noreturn":
+                continue
+            if o.kind != "stop":
+                r.brk("evutil_inet_ntop(%s): %s %s" % (["%x" % w for w in ws], o.kind, o.why))
+                return r
+            fmt = o.env.get("#fmt")
+            v4 = fmt is not None and "%d.%d.%d.%d" in fmt
+            if v4:
+                keeps = all(w == 0 for w in ws[:5]) and (("%x" in fmt) or ws[5] == 0)
+            else:
+                keeps = True
+            r.inst(ws, {"words": ["%x" % w for w in ws], "form": fmt if v4 else "hex groups"}, nontrivial=v4)
+            if not keeps and nb < 5:
+                nb += 1
+                r.bad("K6:evutil_inet_ntop:v4-form-drops-words", fmts[0].where(), f.name,
+                      "address %s is printed with the format %r, which shows only %s: the text parses back to a different address" % (":".join("%x" % w for w in ws), fmt, "words[5] and the last four bytes" if "%x" in fmt else "the last four bytes"))
+    return r
